@@ -270,10 +270,11 @@ def _invert(test: ast.AST) -> ast.AST:
     return ast.UnaryOp(op=ast.Not(), operand=test)
 
 
-def structural_twins(repo: str, rel: str, families: tuple[str, ...] = ("invert-if", "temp-return", "split-and", "flip-compare", "early-continue", "comp-to-loop", "swap-independent")) -> list[tuple[str, dict[str, str]]]:
+def structural_twins(repo: str, rel: str, families: tuple[str, ...] = ("invert-if", "temp-return", "split-and", "flip-compare", "early-continue", "comp-to-loop", "swap-independent", "inline-temp")) -> list[tuple[str, dict[str, str]]]:
     """(description, overlay): one twin per site.
 
     swap-independent  ``a = e1; b = e2`` -> ``b = e2; a = e1``  (adjacent, effect-free, mutually independent)
+    inline-temp  ``t = e; STMT(t)`` -> ``STMT(e)``  (t bound once, read once in the next statement, e effect-free)
 
     invert-if    ``if c: A else: B``  ->  ``if not c: B else: A``
     temp-return  ``return <expr>``    ->  ``_ret_tw = <expr>; return _ret_tw``
@@ -556,6 +557,51 @@ def structural_twins(repo: str, rel: str, families: tuple[str, ...] = ("invert-i
                     break
             if done:
                 emit(f"inline-temp@{la}:{t_}", tree)
+    if "temp-test" in families:
+        # if c: ...  ->  _tst_tw = c; if _tst_tw: ...   (c effect-free, not already a bare name; plain if statements
+        # that are not part of an elif chain)
+        PF3 = {"len", "set", "list", "dict", "tuple", "frozenset", "sorted", "isinstance", "getattr", "str", "repr", "bool", "int", "min", "max", "any", "all", "sum", "type", "id", "hasattr", "callable"}
+        PM3 = {"get", "keys", "values", "items", "startswith", "endswith", "issubset", "issuperset", "isidentifier", "count", "index"}
+
+        def pure3(e):
+            for x in ast.walk(e):
+                if isinstance(x, (ast.Await, ast.Yield, ast.YieldFrom, ast.NamedExpr, ast.Lambda)):
+                    return False
+                if isinstance(x, ast.Call) and not (isinstance(x.func, ast.Name) and x.func.id in PF3 or isinstance(x.func, ast.Attribute) and x.func.attr in PM3):
+                    return False
+            return True
+
+        sites7 = []
+        for holder in ast.walk(base):
+            for fld in ("body", "orelse", "finalbody"):
+                lst = getattr(holder, fld, None)
+                if not isinstance(lst, list):
+                    continue
+                if fld == "orelse" and isinstance(holder, ast.If) and len(lst) == 1 and isinstance(lst[0], ast.If):
+                    continue  # elif
+                for st in lst:
+                    if isinstance(st, ast.If) and not isinstance(st.test, ast.Name) and pure3(st.test):
+                        sites7.append(st.lineno)
+        for la in sites7:
+            tree = _copy.deepcopy(base)
+            done = False
+            for holder in ast.walk(tree):
+                for fld in ("body", "orelse", "finalbody"):
+                    lst = getattr(holder, fld, None)
+                    if isinstance(lst, list) and not (fld == "orelse" and isinstance(holder, ast.If) and len(lst) == 1 and isinstance(lst[0], ast.If)):
+                        for k, st in enumerate(lst):
+                            if isinstance(st, ast.If) and getattr(st, "lineno", None) == la and not isinstance(st.test, ast.Name):
+                                tmp = ast.Assign(targets=[ast.Name(id="_tst_tw", ctx=ast.Store())], value=st.test)
+                                st.test = ast.Name(id="_tst_tw", ctx=ast.Load())
+                                lst.insert(k, tmp)
+                                done = True
+                                break
+                    if done:
+                        break
+                if done:
+                    break
+            if done:
+                emit(f"temp-test@{la}", tree)
     return out
 
 
